@@ -8,6 +8,7 @@ import (
 	"github.com/KevoDB/kevo/pkg/common/iterator"
 	"github.com/KevoDB/kevo/pkg/common/iterator/bounded"
 	"github.com/KevoDB/kevo/pkg/common/iterator/composite"
+	"github.com/KevoDB/kevo/pkg/verifhook"
 	"github.com/KevoDB/kevo/pkg/wal"
 )
 
@@ -261,8 +262,10 @@ func (tx *TransactionImpl) Commit() error {
 		}
 
 		// Apply the batch atomically
+		verifhook.Yield("tx.commit.before_apply")
 		err = tx.storage.ApplyBatch(walBatch)
 	}
+	verifhook.Yield("tx.commit.before_release")
 
 	// Release the write lock
 	tx.releaseWriteLock()
